@@ -122,6 +122,29 @@ func stdoutDiffClass(got, want string) string {
 func evalC16Compile(k c16Case) []pbt.Violation {
 	var vs []pbt.Violation
 	ref := inproc.Compile(k.Text, k.Subset)
+	if ref.ParseErr == "" && ref.Panic == "" && len(ref.Diags) == 0 && len(ref.GenErr) > 0 {
+		// a requested generator refuses the model (no root packet): the command must not report
+		// success, with or without the subcommand word
+		for _, word := range []bool{true, false} {
+			dir := cli.Scratch("c16r")
+			in := filepath.Join(dir, "in.dsl")
+			_ = os.WriteFile(in, []byte(k.Text), 0o644)
+			var args []string
+			if word {
+				args = append(args, "compile")
+			}
+			args = append(args, "-f", in)
+			for _, l := range k.Subset {
+				args = append(args, cli.Flags[l], filepath.Join("out", l))
+			}
+			r := cli.Run(dir, 120*time.Second, nil, nil, cli.Bin(), args...)
+			os.RemoveAll(dir)
+			if r.Exit == 0 && !r.TimedOut {
+				return []pbt.Violation{{Signature: "compile:cli-succeeds-where-library-fails", Detail: fmt.Sprintf("word=%v exit 0 although generators fail in the library: %v", word, ref.GenErr)}}
+			}
+		}
+		return nil
+	}
 	if !ref.OK() {
 		return nil
 	}
@@ -274,6 +297,11 @@ func TestC16(t *testing.T) {
 				p.RootPacket().Root = false
 				sub = rapid.SliceOfNDistinct(rapid.SampledFrom([]string{"rust", "go", "java"}), 1, 3, rapid.ID[string]).Draw(rt, "rootless_subset")
 				c.Class("compile-program-without-root-packet")
+				if rapid.IntRange(0, 2).Draw(rt, "with_refusing_target") == 0 {
+					// one of the targets that need a root packet, anywhere among the flags
+					sub = append(sub, rapid.SampledFrom([]string{"lua", "python", "cpp"}).Draw(rt, "refusing_target"))
+					c.Class("compile-with-a-target-that-refuses-the-model")
+				}
 			}
 			// the order of flags on the command line is free
 			sub = rapid.Permutation(sub).Draw(rt, "flag_order")
